@@ -114,6 +114,40 @@ def overlap_rejected():
     return ["an argument in both cases and combos was accepted"]
 
 
+def case_runner_entry():
+    """the case_runner entry point itself: tuple cases named by fn_args or by the function's signature (every parameter, in order, also
+    those with a default); an argument in both cases and combos is rejected; legal cases x sub-grid runs each pairing once"""
+    calls = []
+
+    def f(a, b=0, c=0):
+        calls.append((a, b, c))
+        return 100 * a + 10 * b + c
+    probs = []
+    with quiet():
+        # names from the signature
+        del calls[:]
+        res = xyz.case_runner(f, None, [(1, 7, 2), (2, 8, 3)], verbosity=0)
+        if calls != [(1, 7, 2), (2, 8, 3)] or tuple(res) != (172, 283):
+            probs.append(f"names from the signature: calls {calls}, results {res!r}")
+        # overlap between the case arguments and the sub-grid
+        del calls[:]
+        try:
+            res = xyz.case_runner(f, ("a", "b"), [(1, 3), (2, 4)], combos={"b": [3, 4]}, verbosity=0)
+        except ValueError:
+            if calls:
+                probs.append("overlapping argument rejected only after calls were made")
+        except Exception as e:
+            probs.append(f"overlap raised {type(e).__name__}: {e}")
+        else:
+            probs.append(f"argument b is in the cases and in the sub-grid but nothing was rejected; returned {res!r}")
+        # legal cases x sub-grid
+        del calls[:]
+        res = xyz.case_runner(f, ("a", "b"), [(1, 7), (2, 8)], combos={"c": [5, 6]}, verbosity=0)
+        if sorted(calls) != [(1, 7, 5), (1, 7, 6), (2, 8, 5), (2, 8, 6)] or len(calls) != 4:
+            probs.append(f"cases x sub-grid: calls {calls}")
+    return probs or None
+
+
 def shapes(depth, width):
     if depth == 0:
         yield 1.5
@@ -128,6 +162,10 @@ pr = overlap_rejected()
 tried += 1
 if pr:
     finish(True, input=dict(kind="overlap"), observed=pr, tried=tried)
+pr = case_runner_entry()
+tried += 1
+if pr:
+    finish(True, input=dict(kind="case_runner entry point: names from the signature / overlap / cases x sub-grid"), observed=pr, tried=tried)
 for depth in range(0, 4):
     for x in shapes(depth, 3):
         tried += 1
